@@ -11,6 +11,7 @@ import (
 	"time"
 
 	netty "github.com/go-netty/go-netty"
+	"github.com/go-netty/go-netty/utils/pool/pbytes"
 	"verif/harness/mock"
 
 	"pgregory.net/rapid"
@@ -135,6 +136,34 @@ func genWritersCase(t *rapid.T, kinds []string, poison bool) E1Case {
 	return c
 }
 
+// poolAudit: what the channel has recycled into the process-wide byte pool during this case (also from its failure
+// paths) is handed out again to one owner at a time. The audit takes a handful of buffers of the classes the channel
+// uses and keeps them (so that a poisoned entry cannot reach the next case).
+var poolAuditKeep [][]byte
+
+func poolAudit() *core.Violation {
+	for _, n := range []int{1024, 2048, 4096, 65536} {
+		seen := map[*byte]int{}
+		for k := 0; k < 6; k++ {
+			b := pbytes.Get(n)
+			if b == nil || cap(*b) == 0 {
+				continue
+			}
+			full := (*b)[:cap(*b)]
+			poolAuditKeep = append(poolAuditKeep, full)
+			if len(poolAuditKeep) > 4096 {
+				poolAuditKeep = poolAuditKeep[2048:]
+			}
+			base := &full[0]
+			if j, dup := seen[base]; dup {
+				return core.Viol("C10/pool-hands-out-the-same-memory-twice", "after the case: Get #%d and Get #%d of %d bytes from the byte pool returned the same memory: the channel has recycled one buffer more than once, the next two payloads of that size share it", j, k, n)
+			}
+			seen[base] = k
+		}
+	}
+	return nil
+}
+
 // oracleStream implements C01's statement on the final stream (which contains every earlier stream as a prefix).
 func oracleStream(r *e1Run, prop string) (e1Parsed, *core.Violation) {
 	stream, _ := r.tr.Accepted()
@@ -230,13 +259,30 @@ func runWriters(c E1Case, prop string) (out core.Outcome) {
 		r.sweep(true)
 		return
 	}
-	p, v := oracleStream(r, prop)
+	senderFault := false
+	for _, f := range c.Faults {
+		if f.Op == "wr" || f.Op == "flush" {
+			senderFault = true // the transport stops accepting writes: order and completeness are no longer promised (C01: "as long as the transport accepts writes")
+		}
+	}
+	var p e1Parsed
+	var v *core.Violation
+	if senderFault {
+		// what does reach the transport is still made of whole, unmodified payloads
+		stream, _ := r.tr.Accepted()
+		if p, v = r.parseStream(stream); v != nil {
+			v.Sig = prop + "/" + v.Sig[len("stream/"):]
+		}
+		r.cls.Add("sender-fault-injected")
+	} else {
+		p, v = oracleStream(r, prop)
+	}
 	if ov := r.tr.WriteOverlap(); v == nil && ov != "" && prop == "C01" {
 		// a transport is not safe for concurrent use (the shipped ones are bufio writers over a connection): two
 		// write-side calls in progress at once can duplicate, drop or reorder bytes on a real transport
 		v = core.Viol("C01/transport-write-calls-overlap", "%s; on a real (bufio-based) transport the payloads would not stay intact", ov)
 	}
-	if v == nil && prop != "C01" {
+	if v == nil && prop != "C01" && !senderFault {
 		v = oracleComplete(r, p, prop)
 	}
 	if v == nil && prop == "C01" {
@@ -278,6 +324,9 @@ func runWriters(c E1Case, prop string) (out core.Outcome) {
 		}
 	}
 	r.sweep(true)
+	if out.Violation == nil && prop == "C10" {
+		out.Violation = poolAudit()
+	}
 	if out.Violation == nil && r.incon != "" {
 		out.Inconclusive = r.incon
 	}
@@ -537,6 +586,18 @@ func TestC10(t *testing.T) {
 				for k := rapid.IntRange(0, 3).Draw(t, "rftail"); k > 0; k-- {
 					c.Tasks[0].Ops = append(c.Tasks[0].Ops, E1Op{Op: "write1", Sizes: []int{rapid.IntRange(1, 1024).Draw(t, "tailsz")}, Poison: true})
 				}
+			}
+			hasReadFrom := false
+			for _, tk := range c.Tasks {
+				for _, op := range tk.Ops {
+					hasReadFrom = hasReadFrom || op.Op == "readfrom"
+				}
+			}
+			// (not with a streamed reader: when its first chunk is lost with the failed batch, the later chunks on the wire
+			// cannot be told from foreign bytes by the stream parser)
+			if c.Kind != "sync" && len(c.Faults) == 0 && !hasReadFrom && rapid.IntRange(0, 3).Draw(t, "senderfault") == 0 {
+				// the sender's failure path recycles buffers, too: what it leaves in the pool is audited after the case
+				c.Faults = []mock.Fault{{Op: rapid.SampledFrom([]string{"wr", "wr", "flush"}).Draw(t, "fop"), K: rapid.IntRange(1, 4).Draw(t, "fk"), Err: rapid.SampledFrom([]string{"plain", "neterr", "timeout"}).Draw(t, "ferr")}}
 			}
 			ns := rapid.IntRange(0, 2).Draw(t, "scribblers")
 			for i := 0; i < ns; i++ {
